@@ -507,6 +507,61 @@ def strat_generate_draws(tier):
     ))
 
 
+def judge_shape_enforcement(spec) -> Outcome:
+    """Database.generate_draws must refuse (BiogemeError) any generator output that does not have
+    the shape (observations, draws) - documented in its docstring - and accept the right one."""
+    out = Outcome()
+    import pandas as pd
+    import biogeme.database as db
+    from biogeme.exceptions import BiogemeError
+
+    n, r = spec['n'], spec['r']
+    dn, dr = spec['dn'], spec['dr']
+    d = db.Database('t', pd.DataFrame({'x': np.arange(n, dtype=float)}))
+    kind = spec['kind']
+    out.nontrivial = (dn != 0) != (dr != 0)  # wrong in exactly one dimension
+    out.classes.append(f'{kind}:' + ('ok' if dn == 0 and dr == 0 else 'rows' if dr == 0 else 'cols' if dn == 0 else 'both'))
+    if kind == 'user':
+        def gen_(sample_size, number_of_draws):
+            return np.zeros((sample_size + dn, number_of_draws + dr))
+        d.set_random_number_generators({'MYSHAPE': (gen_, 'user generator with a given shape')})
+        types, wrong = {'v': 'MYSHAPE'}, (dn != 0 or dr != 0)
+        what = f'user generator returning shape ({n}+{dn}, {r}+{dr})'
+    else:
+        # antithetic native types produce 2*int(R/2) columns: an odd R cannot be honoured
+        types, wrong = {'v': spec['native']}, (r % 2 == 1)
+        what = f'{spec["native"]} with {r} draws'
+    np.random.seed(spec['np_seed'])
+    try:
+        table = d.generate_draws(types, ['v'], r)
+    except BiogemeError:
+        if not wrong:
+            out.fail(f'shape_enforcement:{kind}:refuses_correct_shape', f'{what}: refused although the shape is right')
+        return out
+    except Exception as e:  # noqa
+        out.fail(f'shape_enforcement:{kind}:raises:{type(e).__name__}', f'{what}: raised {e!r} instead of BiogemeError')
+        return out
+    if wrong:
+        out.fail(f'shape_enforcement:{kind}:accepted_wrong_shape',
+                 f'{what} on {n} rows was accepted; table shape {np.asarray(table).shape}, expected refusal '
+                 f'(documented BiogemeError) because the requested shape is ({n}, {r})')
+    elif np.asarray(table).shape != (n, r, 1):
+        out.fail(f'shape_enforcement:{kind}:table_shape', f'{what}: table shape {np.asarray(table).shape}')
+    return out
+
+
+def strat_shape_enforcement(tier):
+    return st.fixed_dictionaries(dict(
+        n=st.integers(1, 8), r=st.integers(1, 21),
+        dn=st.sampled_from([0, 0, 1, -1, 2, 5]).filter(lambda x: True),
+        dr=st.sampled_from([0, 0, 1, -1, 3, 10]),
+        kind=st.sampled_from(['user', 'user', 'native']),
+        native=st.sampled_from(['UNIFORM_ANTI', 'UNIFORM_MLHS_ANTI', 'UNIFORMSYM_ANTI', 'UNIFORMSYM_MLHS_ANTI',
+                                'NORMAL_ANTI', 'NORMAL_MLHS_ANTI']),
+        np_seed=st.integers(0, 2**31 - 1),
+    )).filter(lambda s: s['n'] + s['dn'] >= 1 and s['r'] + s['dr'] >= 1)
+
+
 def _render_cat(s):
     return f"{s['type']}(sample_size={s['n']}, number_of_draws={s['r']}) under numpy seed {s['np_seed']}"
 
@@ -531,5 +586,10 @@ SUBCHECKS = [
              lambda s: f"Database({s['n']} rows).generate_draws(types={s['types']}, R={s['r']})",
              dict(quick=300, thorough=6000),
              'draw table through the database API; non-trivial if >= 2 different types'),
+    SubCheck('shape_enforcement', strat_shape_enforcement, judge_shape_enforcement,
+             lambda s: f"generate_draws on {s['n']} rows, R={s['r']}, {s['kind']} generator off by ({s['dn']},{s['dr']}) / {s['native']}",
+             dict(quick=600, thorough=10000),
+             'generators whose output is wrong in rows, columns or both (user-defined) and antithetic native types asked '
+             'for an odd number of draws must be refused with BiogemeError; non-trivial if wrong in exactly one dimension'),
 ]
 RULE = ' | '.join(f'{s.name}: {s.rule}' for s in SUBCHECKS)
